@@ -59,7 +59,9 @@ SampleAt(j) ==
       sel  == Selectors[1 + PrngNat(K("ssel", r), Len(Selectors))]
       acct == AcctOf(mn, Src(PrngNat(K("s1", r), 2)), pw, IF pw = "" /\ PrngNat(K("s2", r), 2) = 0 THEN "none" ELSE Src(PrngNat(K("s3", r), 2)),
                      sel, Src(PrngNat(K("s4", r), 2)))
-  IN  CItem("sample", Form(1 + (j % 13), acct, IF PrngNat(K("s5", r), 2) = 0 THEN "file" ELSE "stdin", r))
+      cmd  == Form(1 + (j % 13), acct, IF PrngNat(K("s5", r), 2) = 0 THEN "file" ELSE "stdin", r)
+  IN  \* every fourth sample runs under the ambient environment
+      IF j % 4 = 0 THEN AItem("sample_ambient_env", cmd) ELSE CItem("sample", cmd)
 
 \* ---- B: the exhaustive option source lattice on `address` (incl. both selectors: must fail) ----
 SrcChoices == <<"none", "flag", "env">>
